@@ -392,7 +392,7 @@ fn legacy_uuid_of(n: u64) -> String {
 }
 
 const PRICE_MANTS: [u128; 14] = [1, 2, 3, 5, 10, 4, 7, 15, 25, 99, 100, 125, 1000, 12345];
-const LOTS: [u128; 12] = [1, 2, 3, 5, 10, 4, 20, 50, 100, 1000, 1_000_000, 1_000_000_000_000];
+const LOTS: [u128; 14] = [1, 2, 3, 5, 10, 4, 20, 50, 100, 1000, 1_000_000, 1_000_000_000_000, 18_446_744_073_709_551_615, 39_614_081_257_132_168_796_771_975_167];
 
 fn price_string(w: u32, w2: u32, precision: u32) -> String {
     let m = PRICE_MANTS[weighted(w, &[16, 14, 10, 10, 10, 6, 6, 6, 5, 4, 4, 4, 3, 2])];
@@ -406,7 +406,19 @@ fn price_string(w: u32, w2: u32, precision: u32) -> String {
     };
     let mut s = dec.normalized().to_plain_string();
     // occasionally a different spelling of the same number, within the precision
-    match pick(w2.rotate_left(13), 12) {
+    match pick(w2.rotate_left(13), 16) {
+        // other unambiguous spellings of the same number: ".5", "1.", "+1.5"
+        12 => {
+            if let Some(rest) = s.strip_prefix("0.") {
+                s = format!(".{}", rest);
+            }
+        }
+        13 => {
+            if !s.contains('.') {
+                s.push('.');
+            }
+        }
+        14 => s = format!("+{}", s),
         10 => {
             let nd = dec.normalized().scale;
             if nd < precision {
@@ -423,7 +435,18 @@ fn price_string(w: u32, w2: u32, precision: u32) -> String {
 }
 
 fn size_of(w: u32, increment: u128) -> u128 {
-    LOTS[weighted(w, &[14, 14, 10, 10, 12, 8, 8, 6, 8, 5, 3, 2])].saturating_mul(increment)
+    // the last two: 2^64 - 1 lots, and a size just below 2^95 whatever the increment
+    let raw = match weighted(w, &[14, 14, 10, 10, 12, 8, 8, 6, 8, 5, 3, 2, 1, 1]) {
+        13 => (LOTS[13] / increment.max(1)).max(1).saturating_mul(increment),
+        i => LOTS[i].saturating_mul(increment),
+    };
+    // keep room for the +-1 faults; stay on the lot grid
+    let cap = 1u128 << 120;
+    if raw > cap {
+        (cap / increment.max(1)).max(1) * increment.max(1)
+    } else {
+        raw
+    }
 }
 
 fn exact_fee(rate: &str, total: u128) -> Option<u128> {
